@@ -878,3 +878,18 @@ add("C13", "revert: heredoc-tag rewind keeps the advanced line", "sqlglot/tokeni
 
 add("C13", "revert: command text token keeps the nested scan's start", "sqlglot/tokenizer_core.py",
     "                self._start = start + len(raw) - len(raw.lstrip())\n", "", "C13.j")
+
+add("C13", "revert: number, synthesised :: and type suffix share one span", "sqlglot/tokenizer_core.py",
+    "            self._start = self._current\n            self._add(TokenType.DCOLON, \"::\")\n            self._advance(len(numeric_literal))\n",
+    "            self._add(TokenType.DCOLON, \"::\")\n", "C13.k")
+add("C13", "the type suffix token re-uses the start of the number", "sqlglot/tokenizer_core.py",
+    "            self._start = self._current\n            self._add(TokenType.DCOLON, \"::\")\n",
+    "            self._add(TokenType.DCOLON, \"::\")\n", "C13.k")
+add("C13", "hint scanner also emits a comment marker token with the same span", "sqlglot/tokenizer_core.py",
+    "            self._add(TokenType.HINT)\n", "            self._add(TokenType.HINT)\n            self._add(TokenType.VAR, \"hint\")\n", "C13.k")
+add("C13", "benign: synthesised :: emitted through a local alias of the suffix length", "sqlglot/tokenizer_core.py",
+    "            self._start = self._current\n            self._add(TokenType.DCOLON, \"::\")\n            self._advance(len(numeric_literal))\n",
+    "            suffix = len(numeric_literal)\n            self._start = self._current\n            self._add(TokenType.DCOLON, \"::\")\n            self._advance(suffix)\n", "silent")
+add("C13", "benign: bit-string fallback re-assigns nothing but emits on disjoint paths", "sqlglot/tokenizer_core.py",
+    "            int(value, 2)\n            self._add(TokenType.BIT_STRING, value[2:])  # Drop the 0b\n        except ValueError:\n            self._add(TokenType.IDENTIFIER)\n",
+    "            bits = int(value, 2)\n        except ValueError:\n            bits = -1\n        if bits >= 0:\n            self._add(TokenType.BIT_STRING, value[2:])  # Drop the 0b\n        else:\n            self._add(TokenType.IDENTIFIER)\n", "silent")
